@@ -317,7 +317,7 @@ def run(ctx):
         C14.run(sub)
         n6 = 0
         for o in sub.obs:
-            if o.rule == "R14.2":
+            if o.rule in ("R14.2", "R14.3"):
                 n6 += 1
                 o.rule = "R03.6"
                 ctx.obs.append(o)
